@@ -262,6 +262,24 @@ def k2_lexer(ctx):
         x = G.structured(base + 7000 + i)
         if x:
             texts.append(x.queries + "# a comment, with (punctuation) \"and quotes\"\n")
+    # Gql/Block.v block_value vs graphql-core's dedent on random raw contents (LF only, blanks/tabs, blank lines at both ends)
+    from graphql.language.block_string import dedent_block_string_lines
+
+    rng = random.Random(ctx.seed * 31 + 9)
+    raws = []
+    for _ in range(1500 if ctx.thorough else 300):
+        ls = []
+        for _i in range(rng.randint(1, 6)):
+            ls.append(rng.choice(["", " ", "  ", "\t", "   "]) * rng.randint(0, 2) + rng.choice(["", "", "a", "b c", "x  ", '"q"', "\\"]))
+        raws.append("\n".join(ls))
+    rb = model.batch("C02", [[Sym("blockvalue"), r] for r in raws])
+    for r, got in zip(raws, rb):
+        run.count()
+        want = list(dedent_block_string_lines(r.split("\n")))
+        if list(got) != want:
+            run.broken("K2 block value", f"Gql/Block.v block_value {got!r} vs graphql-core {want!r} for raw {r!r}")
+    run.dist("k2", "block-values", len(raws))
+    block_raws = []
     cmds = [[Sym("tokens"), t] for t in texts]
     res = model.batch("C02", cmds)
     for t, r in zip(texts, res):
@@ -277,6 +295,7 @@ def k2_lexer(ctx):
                 want.append(["spread"])
             elif tk.kind == TokenKind.BLOCK_STRING:
                 want.append(["b", raw[3:-3]])
+                block_raws.append((raw[3:-3], tk.value))
             elif tk.kind == TokenKind.STRING:
                 want.append(["s", raw[1:-1]])
             elif tk.kind in (TokenKind.NAME, TokenKind.INT, TokenKind.FLOAT):
@@ -290,6 +309,15 @@ def k2_lexer(ctx):
                                    f"in {t[:200]!r}")
         run.dist("k2", "lexer-documents")
         run.dist("k2_tokens", "compared", len(want))
+    # the value graphql-core gives each block string token of those documents
+    bv = model.batch("C02", [[Sym("blockvalue"), r] for r, _v in block_raws]) if block_raws else []
+    for (r, v), got in zip(block_raws, bv):
+        run.count()
+        if "\r" in r:
+            continue
+        if "\n".join(got).replace('\\"""', '"""') != v:
+            run.broken("K2 block value", f"block string {r!r}: Gql/Block.v {got!r}, graphql-core value {v!r}")
+    run.dist("k2", "block-string-tokens", len(block_raws))
 
 
 # ====================================================================================== K1b + K3 documents
